@@ -907,7 +907,10 @@ fn parse_mapping(mapping: &Mapping) -> crate::Result<Expression> {
                             k
                         )));
                     } else if let Some(ModSym::Str) = misc {
-                        Expression::Search(Search::Exact(i.to_string()), f.to_owned(), true)
+                        // NOTE: An integer above i64::MAX also lands here, it must keep its own
+                        // decimal text and not that of the nearest double
+                        let text = n.as_u64().map_or_else(|| i.to_string(), |u| u.to_string());
+                        Expression::Search(Search::Exact(text), f.to_owned(), true)
                     } else {
                         Expression::BooleanExpression(
                             Box::new(e.clone()),
@@ -1206,7 +1209,9 @@ fn parse_mapping(mapping: &Mapping) -> crate::Result<Expression> {
                                     string = true;
                                     exact.push(Identifier {
                                         ignore_case: false,
-                                        pattern: Pattern::Exact(i.to_string()),
+                                        pattern: Pattern::Exact(
+                                            n.as_u64().map_or_else(|| i.to_string(), |u| u.to_string()),
+                                        ),
                                     });
                                 } else {
                                     number = true;
